@@ -274,7 +274,7 @@ func (a *recAdapter) Subscribe(fn func(action string)) {
 	a.mu.Lock()
 	a.subs = append(a.subs, fn)
 	a.mu.Unlock()
-	a.ep.g.note("ad.sub", "a", a.idx)
+	a.ep.g.point("ad.sub", "a", a.idx)
 }
 
 type recPrioAdapter struct{ *recAdapter }
